@@ -388,6 +388,9 @@ def verify_many(contracts, cfg_factory, timeout_ms=None, workers=None, include_s
     return _run_jobs(ijobs, workers) + skipped
 
 
+JOB_BUDGET_S = int(os.environ.get('PYVC_JOB_BUDGET_S', '900'))
+
+
 def _run_jobs(ijobs, workers):
     """One forked child per job, at most `workers` at a time; results come back as JSON files. A child that dies on a signal
     (z3 has been seen to crash in incremental string solving) is retried once; a second death is a checker error for that
@@ -401,6 +404,8 @@ def _run_jobs(ijobs, workers):
     pending = list(range(len(ijobs)))
     attempts = [0] * len(ijobs)
     running = {}
+    started = {}
+    killed = set()
     try:
         while pending or running:
             while pending and len(running) < workers:
@@ -424,10 +429,31 @@ def _run_jobs(ijobs, workers):
                     finally:
                         os._exit(code)
                 running[pid] = ix
-            pid, status = os.wait()
+                started[pid] = time.time()
+            pid, status = os.waitpid(-1, os.WNOHANG)
+            if pid == 0:
+                # nobody finished: enforce the wall-clock budget of a single job (a changed function can make the path
+                # exploration explode; the unchanged tree's longest job takes about 200 s)
+                now = time.time()
+                for p_, ix_ in list(running.items()):
+                    if now - started[p_] > JOB_BUDGET_S and p_ not in killed:
+                        killed.add(p_)
+                        try:
+                            os.kill(p_, 9)
+                        except OSError:
+                            pass
+                time.sleep(0.2)
+                continue
             if pid not in running:
                 continue
             ix = running.pop(pid)
+            if pid in killed:
+                cix, _t, case = ijobs[ix]
+                c = _SHARED['contracts'][cix]
+                label = '' if case is None else ('#' + (case if isinstance(case, str) else c.cases()[case][0]))
+                results[ix] = {'function': c.qual, 'case': label, 'obligations': [], 'paths': 0, 'bounded': False, 'path_kinds': {},
+                               'out_of_reach': f'path exploration and discharge exceeded the job budget of {JOB_BUDGET_S} s'}
+                continue
             path = os.path.join(tmpdir, f'{ix}.json')
             if os.WIFEXITED(status) and os.WEXITSTATUS(status) == 0 and os.path.exists(path):
                 with open(path, encoding='utf-8') as fh:
